@@ -1035,6 +1035,8 @@ impl Stdfs {
             if !path.exists() {
                 fs::create_dir(&path)?;
                 fs::set_permissions(&path, fs::Permissions::from_mode(mode))?;
+            } else if !path.is_dir() {
+                return Err(PathError::is_not_dir(path).into());
             }
         }
         Ok(abs)
